@@ -32,7 +32,7 @@ def arr(vals):
 def coord_values(c):
     if c["kind"] == "time":
         return to_time(c["values"])
-    return arr(c["values"])
+    return arr(c["values"]).astype(c.get("dtype", "float64"))
 
 
 def build_ds(d):
